@@ -3586,3 +3586,35 @@ B("C12-compaction-uses-first-keyspaces-strategy", "C12", "C12:R-C12.10", "src/co
         .values()
         .next()
         .map_or_else(|| keyspace.config.compaction_strategy.clone(), |k| k.config.compaction_strategy.clone());""")
+
+# ---- contexts refreshed after repairs 29-33
+_override("C14-rotate-without-id-check", [(KS, """        if self.tree.active_memtable().id() != memtable_id {
+            return Ok(false);
+        }
+""", """        let _ = memtable_id;
+""")])
+_override("C02-early-ack", [(KS, """        let (item_size, memtable_size) = self.tree.remove_weak(key, seqno);
+""", """        if key.is_empty() {
+            return Ok(());
+        }
+
+        let (item_size, memtable_size) = self.tree.remove_weak(key, seqno);
+""")])
+_override("C05-range-seqno-max", [(KS, "let iter = self.tree.range(range, nonce.instant, None);", "let iter = self.tree.range(range, lsm_tree::SeqNo::MAX, None);")])
+_override("C05-prefix-seqno-max", [(KS, "let iter = self.tree.prefix(prefix, nonce.instant, None);", "let iter = self.tree.prefix(prefix, lsm_tree::SeqNo::MAX, None);")])
+_override("F08-C06-first_key_value-at-max", [(KS, "        self.tree.first_key_value(nonce.instant, None)", "        self.tree.first_key_value(lsm_tree::SeqNo::MAX, None)")])
+_override("F08-C06-last_key_value-at-max", [(KS, "        self.tree.last_key_value(nonce.instant, None)", "        self.tree.last_key_value(lsm_tree::SeqNo::MAX, None)")])
+_override("F08-C06-is_empty-at-max", [(KS, "        self.tree.is_empty(nonce.instant, None)", "        self.tree.is_empty(lsm_tree::SeqNo::MAX, None)")])
+_override("F25-C17-populated-folder-reinitialised", [(DB, """                if lock_path.try_exists()? {
+                    LockedFileGuard::try_acquire(&lock_path)?;
+                }
+
+                return Err(crate::Error::InvalidVersion(None));
+            }
+""", """                if lock_path.try_exists()? {
+                    LockedFileGuard::try_acquire(&lock_path)?;
+                }
+
+                log::warn!("version marker missing");
+            }
+""")])
